@@ -5,6 +5,7 @@ import RactorModel.Lemmas.AdmissionIds
 import RactorModel.Lemmas.AdmissionQueue
 import RactorModel.Lemmas.AdmissionOracle
 import RactorModel.Lemmas.AdmissionShut
+import RactorModel.Lemmas.Early
 
 /-!
 # C07 — drain processes everything accepted and admits nothing afterwards
@@ -283,6 +284,43 @@ example : (run (init exampleProgs) [.t 1, .t 1, .t 2]).sh.word.closed = true
     ∧ (run (init exampleProgs) [.t 1, .t 1, .t 2, .t 2, .t 2]).sh.rets = [⟨.send, 0, .sendErr, true, []⟩] := by
   refine ⟨by decide, ⟨_, List.mem_of_getElem? (i := 2) rfl, _, List.mem_cons_self, rfl, rfl⟩, by decide⟩
 
+
+/-! ### requests that arrive before the actor has started (`Model/Early.lean`) -/
+
+/-- **A drain that arrives before the actor has started still drains.** `spawn_instant` hands out
+the `ActorRef` while the cell is `Unstarted`. For EVERY sequence of casts and drains issued
+before and after the start task runs (nothing else intervening: no stop, kill or failing
+pre_start): if a drain was called and the start task has run, every message whose send returned
+Ok was handled, in order, the actor has stopped and its supervisor saw the reason "Drained". -/
+theorem drain_before_start_still_drains (ops : List Early.Op) (hu : Early.undisturbed ops = true)
+    (ok : Bool) (hpoll : Early.Op.poll ok ∈ ops) (hd : (Early.run ops).drainCalled = true) :
+    (Early.run ops).handled = (Early.run ops).accepted ∧ (Early.run ops).phase = .stopped ∧
+    (Early.run ops).reason = some "T:Drained" := by
+  have hI := Early.uinv_fold ops ((Early.undisturbed_iff ops).mp hu) {} Early.uinv_init
+  have hph := Early.polled_fold ops ok hpoll {}
+  change Early.UInv (Early.run ops) at hI
+  change (Early.run ops).phase ≠ .unstarted at hph
+  cases hp : (Early.run ops).phase
+  · exact absurd hp hph
+  · have := (hI.ru hp).2.2.2; rw [hd] at this; exact absurd this (by simp)
+  · have h3 := hI.st hp
+    have h4 := hI.split
+    rw [h3.1, List.append_nil] at h4
+    exact ⟨h4, rfl, h3.2.1⟩
+
+/-- … and whatever else happens (stops, kills, failing starts, any order): once a drain has
+returned, no later cast is accepted. -/
+theorem no_send_accepted_after_early_drain (ops : List Early.Op) :
+    (Early.run ops).refusedAfterDrain = true :=
+  Early.refused_fold ops {} (by simp)
+
+/-- Non-vacuity, and the witness of finding F8: two casts and a drain before the start task runs,
+then the start: both messages are handled and the actor ends "Drained". -/
+example :
+    let s := Early.run [.cast, .cast, .drain, .cast, .poll true]
+    s.handled = [0, 1] ∧ s.accepted = [0, 1] ∧ s.reason = some "T:Drained" ∧ s.startResult = some "ok" := by
+  decide
+
 end C07
 
 #print axioms C07.send_after_close_rejected
@@ -301,3 +339,5 @@ end C07
 #print axioms C07.src_status_discriminants
 #print axioms C07.src_admission_word_layout
 #print axioms C07.src_drain_steps
+#print axioms C07.drain_before_start_still_drains
+#print axioms C07.no_send_accepted_after_early_drain
